@@ -18,7 +18,7 @@ func lockInodes(op *fstxn.FsTxn, inums []common.Inum) []*inode.Inode {
 	util.DPrintf(1, "lock inodes %v\n", inums)
 	sorted := make([]common.Inum, len(inums))
 	copy(sorted, inums)
-	sort.Slice(sorted, func(i, j int) bool { return inums[i] < inums[j] })
+	sort.Slice(sorted, func(i, j int) bool { return sorted[i] < sorted[j] })
 	var inodes = make([]*inode.Inode, len(inums))
 	for _, inm := range sorted {
 		ip := op.GetInodeInum(inm)
